@@ -101,3 +101,76 @@ theorem runForwardOn_eq (net : Net W) (flags : Option (St W)) (s : NodeArg) (t :
     runForwardOn net flags s t cut = runForward net (correctInputNode s) (t.map correctInputNode) cut := rfl
 
 end TV.GraphExt
+
+/-! ### labels of settled nodes are final in EVERY state of the loop -/
+namespace TV.Graph
+variable {W : Type} [AddCommMonoid W] [LinearOrder W] [IsOrderedAddMonoid W]
+
+/-- in a state satisfying the loop invariants, every walk from the source ends at a node whose label does not exceed
+the walk's weight, or passes a labelled unsettled node whose label does not exceed it -/
+theorem walk_frontier (net : Net W) (hnet : WFNet net) (s : Nat) (st : St W) (hinv : Inv net s st) :
+    ∀ v c, Walk net s v c → ∃ z y, st.d z = some y ∧ y ≤ c ∧ (z = v ∨ st.vis z = false) := by
+  intro v c hw
+  induction hw with
+  | nil => exact ⟨s, 0, hinv.j1, le_refl _, Or.inl rfl⟩
+  | @snoc a v x w hwalk harc ih =>
+    obtain ⟨z, y, hz, hle, hor⟩ := ih
+    have hw0 : 0 ≤ w := (arc_wf hnet harc).2
+    have hxw : x ≤ x + w := le_add_of_nonneg_right hw0
+    rcases hor with rfl | hun
+    · cases hva : st.vis z with
+      | true =>
+        obtain ⟨x', y', h1, h2, h3⟩ := hinv.j2 z hva v w harc
+        rw [hz] at h1
+        cases h1
+        exact ⟨v, y', h2, le_trans h3 (add_le_add_left hle w), Or.inl rfl⟩
+      | false => exact ⟨z, y, hz, le_trans hle hxw, Or.inr hva⟩
+    · exact ⟨z, y, hz, le_trans hle hxw, Or.inr hun⟩
+
+/-- the label of a settled node is the true distance, whenever the loop is stopped -/
+theorem settled_label_isDist (net : Net W) (hnet : WFNet net) (s : Nat) (st : St W) (hinv : Inv net s st)
+    (u : Nat) (x : W) (hv : st.vis u = true) (hd : st.d u = some x) : IsDist net s u x := by
+  refine ⟨hinv.j3 u x hd, fun c hc => ?_⟩
+  obtain ⟨z, y, hz, hle, hor⟩ := walk_frontier net hnet s st hinv u c hc
+  rcases hor with rfl | hun
+  · rw [hd] at hz; cases hz; exact hle
+  · exact le_trans (hinv.j4 u x hv hd z y hun hz) hle
+
+/-- the entries recorded so far (`output_dict`) are settled nodes with their labels, none above the cut-off — whatever
+the target and the cut-off, wherever the loop stops -/
+theorem forward_out_settled (net : Net W) (tgt : Option Nat) (cut : Option W) :
+    ∀ (f : Nat) (st : St W) (out : List (Nat × W)),
+      (∀ p ∈ out, st.vis p.1 = true ∧ st.d p.1 = some p.2 ∧ Within cut p.2) →
+      ∀ p ∈ (forward net tgt cut f st out).2,
+        (forward net tgt cut f st out).1.vis p.1 = true ∧ (forward net tgt cut f st out).1.d p.1 = some p.2 ∧ Within cut p.2 := by
+  intro f
+  induction f with
+  | zero => intro st out h; exact h
+  | succ f ih =>
+    intro st out h
+    unfold forward
+    cases hp : popMinAux st net.n with
+    | none => exact h
+    | some q =>
+      obtain ⟨u, du⟩ := q
+      simp only []
+      by_cases hstop : stops tgt cut u du = true
+      · simp only [hstop, if_true]; exact h
+      · simp only [hstop, Bool.false_eq_true, if_false]
+        apply ih
+        obtain ⟨s1, s2, _, _⟩ := settle_spec net st u du
+        obtain ⟨_, _, hud, _⟩ := popMin_facts hp
+        intro p hpm
+        rcases List.mem_append.1 hpm with hpm | hpm
+        · obtain ⟨a, b, c⟩ := h p hpm
+          refine ⟨by rw [s1]; split <;> simp [a], by rw [s2 p.1 (Or.inr a)]; exact b, c⟩
+        · simp only [List.mem_singleton] at hpm
+          subst hpm
+          refine ⟨by rw [s1]; simp, by rw [s2 u (Or.inl rfl)]; exact hud, ?_⟩
+          intro c hc
+          have : ¬ (c < du) := by
+            intro hlt
+            apply hstop
+            simp [stops, hc, hlt]
+          exact not_lt.1 this
+end TV.Graph
